@@ -587,7 +587,23 @@ class XPathToken(Token[ta.XPathTokenType]):
                         yield str(op1), str(op2)
                         continue
 
-            yield op1, op2
+            yield self.implicit_timezone_operands(context, op1, op2)
+
+    @staticmethod
+    def implicit_timezone_operands(context: ta.ContextType, op1: Any, op2: Any) -> tuple[Any, Any]:
+        """
+        Two date/time operands are compared, subtracted etc. using the implicit timezone
+        of the dynamic context for the one that has no timezone (on a copy of the value).
+        """
+        if isinstance(op1, AbstractDateTime) and isinstance(op2, AbstractDateTime) \
+                and context is not None and context.timezone is not None:
+            if op1.tzinfo is None:
+                op1 = copy(op1)  # do not modify the caller's value
+                op1.tzinfo = context.timezone
+            if op2.tzinfo is None:
+                op2 = copy(op2)
+                op2.tzinfo = context.timezone
+        return op1, op2
 
     def get_operands(self, context: ta.ContextType, cls: type[Any] | None = None) -> Any:
         """
@@ -612,13 +628,7 @@ class XPathToken(Token[ta.XPathTokenType]):
             op2 = self._items[1].data_value(op2)
 
         if isinstance(op1, AbstractDateTime) and isinstance(op2, AbstractDateTime):
-            if context is not None and context.timezone is not None:
-                if op1.tzinfo is None:
-                    op1 = copy(op1)  # do not modify the caller's value
-                    op1.tzinfo = context.timezone
-                if op2.tzinfo is None:
-                    op2 = copy(op2)
-                    op2.tzinfo = context.timezone
+            op1, op2 = self.implicit_timezone_operands(context, op1, op2)
         else:
             if isinstance(op1, UntypedAtomic):
                 op1 = self.cast_to_double(op1.value)
